@@ -197,6 +197,23 @@ def collision_cases():
                 ('E', ('and', ('X', inner), ('F', ('not', inner))))))
     out.append((NK(range(2), [0b11, 0b10], [{'p'}, set()]),
                 ('A', ('or', ('X', inner), ('X', ('E', ('G', ('not', p))))))))
+    # two DIFFERENT nested quantified subformulas under one quantifier (each
+    # needs its own fresh atom), on structures where they differ
+    inners = [('A', ('F', p)), ('E', ('G', q)), ('E', ('X', p)),
+              ('A', ('U', p, q)), ('E', ('U', q, p)), ('A', ('G', ('F', q)))]
+    shapes = [NK(range(3), [0b010, 0b101, 0b100], [{'p'}, {'q'}, set()]),
+              NK(range(3), [0b011, 0b100, 0b010], [{'p', 'q'}, {'p'}, {'q'}]),
+              NK(range(2), [0b10, 0b11], [{'q'}, {'p'}])]
+    for a in range(len(inners)):
+        for b in range(len(inners)):
+            if a == b:
+                continue
+            i1, i2 = inners[a], inners[b]
+            for nk in shapes[: 2 if (a + b) % 2 else 3]:
+                out.append((nk, ('E', ('and', ('F', i1), ('X', i2)))))
+                out.append((nk, ('A', ('or', ('G', i1),
+                                       ('F', ('not', i2))))))
+                out.append((nk, ('A', ('U', i1, ('X', i2)))))
     return out
 
 
